@@ -11,7 +11,10 @@ fn shape(which: usize) -> (String, usize, Vec<usize>) {
         0 => ("ones at 5, 2^32-1, 2^32, 2^32+1, len-1".into(), b + (1 << 20), vec![5, b - 1, b, b + 1, b + (1 << 20) - 1]),
         1 => ("two ones 2^32+77 apart".into(), b + 1000, vec![3, b + 80]),
         2 => ("dense first 2^16 bits then a single one at the end".into(), b + 64 * 3 + 1, (0..1usize << 16).filter(|i| i % 3 != 0).chain([b + 64 * 3]).collect()),
-        _ => ("no ones".into(), b + 5, vec![]),
+        3 => ("no ones".into(), b + 5, vec![]),
+        // eight ones 2^30 + 2^27 bits apart: with 4 ones per inventory entry every entry spans more than
+        // 2^32 bits (64-bit span encoding in the SECOND entry too, ranks spilling there)
+        _ => ("eight ones 2^30+2^27 apart (two 64-bit-span entries)".into(), 8 * ((1 << 30) + (1 << 27)) + 200, (0..8).map(|i| 100 + i * ((1usize << 30) + (1 << 27))).collect()),
     }
 }
 
@@ -391,7 +394,7 @@ fn main() {
         return;
     }
     formula_cases(&mut ctx, &prop);
-    for which in 0..4 {
+    for which in 0..5 {
         let (name, len, ones) = shape(which);
         if !ctx.case(|| format!("huge vector len={len} ({name})")) {
             continue;
@@ -497,6 +500,8 @@ fn main() {
         }
         chk_sel!("SelectZeroAdaptConst(SelectAdaptConst(AddNumBits))", SelectZeroAdaptConst::<_, _>::new(SelectAdaptConst::<_, _>::new(AddNumBits::from(&bv))), true);
         chk_sel!("SelectAdaptConst<1,0>(AddNumBits)", SelectAdaptConst::<_, _, 1, 0>::new(AddNumBits::from(&bv)), false);
+        chk_sel!("SelectAdaptConst<2,1>(AddNumBits)", SelectAdaptConst::<_, _, 2, 1>::new(AddNumBits::from(&bv)), false);
+        chk_sel!("SelectZeroAdapt(SelectAdapt(AddNumBits))", SelectZeroAdapt::with_inv(SelectAdapt::with_inv(AddNumBits::from(&bv), 2, 1), 12, 3), true);
         chk_sel!("Select9(Rank9)", Select9::new(Rank9::new(&bv)), false);
         chk_sel!("SelectZeroSmall(SelectSmall(RankSmall<1,9>))", SelectZeroSmall::<1, 9, _>::new(SelectSmall::<1, 9, _>::new(rank_small![1; &bv])), true);
         chk_sel!("SelectZeroSmall(SelectSmall(RankSmall<3,13>))", SelectZeroSmall::<3, 13, _>::new(SelectSmall::<3, 13, _>::new(rank_small![4; &bv])), true);
